@@ -9,6 +9,7 @@ import Driver.Util
 import JanetModel.Spec.Emit
 import JanetModel.Spec.CallSite
 import JanetModel.Spec.FixedEmit
+import JanetModel.Spec.VariadicEmit
 open Driver JanetModel.Spec JanetModel.Gen.Cfuns JanetModel.Gen.Bytecode JanetModel.Bytecode.VM
 
 def dropFirst (s : String) (k : Nat) : String := String.ofList (s.toList.drop k)
@@ -146,4 +147,29 @@ def handleFixed (toks : List String) : Option String :=
     | _, _ => some "bad-request"
   | _ => none
 
-def main : IO Unit := runLoop () (fun s toks => (s, (handleFixed toks).getD ((handleCall toks).getD (handle toks))))
+/-! ### variadic arithmetic: the full instruction chain `Spec.emitOpreduceCode` gives when the k-th register operand is parameter register k,
+     every constant operand is an immediate, and the target is the first free register -/
+
+def handleChain (toks : List String) : Option String :=
+  match toks with
+  | "chain" :: tag :: rest =>
+    match optimizers.find? (fun r => r.tagName == tag), rest.mapM parseOperand with
+    | some r, some ops =>
+      match r.handler with
+      | .opreduce op opim _ _ =>
+        let kinds := ops.map (·.2)
+        let nregs := (kinds.filter (· == .reg)).length
+        let step := fun (acc : List RArg × Nat × Bool) (k : Operand) =>
+          match k with
+          | .reg => (acc.1 ++ [RArg.reg acc.2.1], acc.2.1 + 1, acc.2.2)
+          | .const (some i) => (acc.1 ++ [RArg.imm i], acc.2.1, acc.2.2 && opim.isSome)
+          | .const none => (acc.1, acc.2.1, false)
+        let (rargs, _, ok) := kinds.foldl step ([], 0, true)
+        match ok, rargs with
+        | true, .reg a0 :: y :: more => some ("code=" ++ ",".intercalate ((emitOpreduceCode op opim nregs a0 y more).map showInstr))
+        | _, _ => some "code=-"
+      | _ => some "code=-"
+    | _, _ => some "bad-request"
+  | _ => none
+
+def main : IO Unit := runLoop () (fun s toks => (s, (handleChain toks).getD ((handleFixed toks).getD ((handleCall toks).getD (handle toks)))))
